@@ -328,7 +328,9 @@ def check_case(case):
 
 def describe(tier):
     return {
-        "alphabet": "file kinds ML/BASIC/ASCII/DATA x lengths {} x content patterns x names {} x extensions {} x addresses; 12-symbol file "
+        "alphabet": "file kinds ML/BASIC/ASCII/DATA (+ the four other type/flag combinations at 8 lengths) x lengths {} x content patterns x names {} x extensions {} x addresses; "
+                    "add/list interleavings on ONE DiskFile object; a file added to 6 pre-existing fragmented images (independent writer; chains such as 5>67>20, "
+                    "66>0, 67..41 descending) x 6 lengths x 4 fill orders; 12-symbol file "
                     "alphabet for lists; 72 fill orders (default, identity, reverse, 67 rotations, odd-then-even, even-odd descending); read side: "
                     "all ordered chains of length <= 3 over granules {} x stream ends (mid-granule, exact, straddling by -1/+1/+4, two granules) "
                     "x 3 kinds, one and two files".format("0..65535 for ML/BASIC/ASCII" if tier == "thorough" else
